@@ -77,6 +77,22 @@ def h_schema(d, schema, k, sb, lf):
     return _check(x, y)
 
 
+def h_schema_deep(d, schema, sb, focus):
+    """the consumed argument B has 3 leaves; leaf `focus` of B carries fully symbolic triples on both sides, the other leaves of B one
+    symbolic value: a clash at ANY leaf of B must block the rule"""
+    from depccg.cat import Functor
+    nb = nleaves(sb)
+
+    def mk(name, shape, full):
+        return Builder(d, name, lb=1, lf=1, feat='ternary', full=full, keys=KEYS, smodes=['\\\\', '/'][:max(0, nleaves(shape) - 1)]).build(shape)
+    A, B1, B2 = mk('A', 'a', set()), mk('B1', sb, {focus}), mk('B2', sb, {focus})
+    if schema == '>':
+        x, y = Functor(A, '/', B1), B2
+    else:
+        x, y = B1, Functor(A, '\\', B2)
+    return _check(x, y)
+
+
 def h_roots(d, i, j, perturb):
     """SSEQ: pairs of the listed root categories, one value perturbed symbolically"""
     from depccg.cat import Atom, TernaryFeature
@@ -177,6 +193,10 @@ def obligations(tier):
         for k in ks:
             for sb in (['a'] if q else shapes_upto(2)):
                 yield Obligation('C04.schema[%s%d,B=%s]' % (schema, k, shape_name(sb)), 'h_schema', dict(schema=schema, k=k, sb=sb, lf=1), cost=40)
+    for schema in ('>', '<'):
+        for sb in ((('a', 'a'), 'a'), ('a', ('a', 'a'))):
+            for focus in range(3):
+                yield Obligation('C04.schema-deep[%s,B=%s,focus leaf %d]' % (schema, shape_name(sb), focus), 'h_schema_deep', dict(schema=schema, sb=sb, focus=focus), cost=30)
     nroots = 16
     pairs = [(0, 0), (0, 1), (2, 3), (5, 2), (15, 15), (1, 14)] if q else [(i, j) for i in range(nroots) for j in range(nroots) if (i * 7 + j) % 5 == 0]
     for i, j in pairs:
